@@ -1,4 +1,5 @@
 import Solvor.Graph.OpenLemmas
+import Solvor.Graph.TarjanTop
 /-!
 Graph: the property theorems of C14 (helper lemmas are in `Lemmas.lean`, `KahnLemmas.lean`,
 `CondLemmas.lean`; the specifications are in `Spec.lean`).
@@ -179,16 +180,47 @@ example : chkTopoOpen [0, 1, 2] [0, 1] exOpen [1, 0] = true := by decide
 example : chkTopoOpen [0, 1, 2] [0, 1] exOpen [0, 1] = false := by decide
 example : chkCondOpen [0, 1, 2] [0, 1] exOpen [[0], [1]] [[], [0]] = true := by decide
 
-/-! ### Tarjan
+/-! ### T-model: Tarjan's algorithm (`strongly_connected_components`), for every input
 
--- FULL STATEMENT (not proved):
--- theorem tarjan_certifies (U nodes : List Nat) (adj : Adj) (hc : Closed U adj) (hs : nodes ⊆ U) :
---     chkScc (reach adj U nodes) adj (tarjan U nodes adj) = true
--- (the mirror of `strongly_connected_components` emits, on every input, a decomposition accepted by
--- the certificate checker).  It is checked per input by the driver: `chkScc` is evaluated on the
--- mirror's and on the implementation's components on every explored input.
--/
+`U` is any universe closed under the neighbour function that contains the node list (the driver
+uses every label occurring in the request); the recursion fuel of the mirror is `U.length + 1` and
+is proved sufficient.  The vertex set of the result is `reach adj U nodes`, the set explored from the
+node list (equal to the node list when no neighbour lies outside it). -/
 
+/-- **tarjan_certifies** [S]: on every input the mirror of `strongly_connected_components` emits a
+decomposition accepted by the certificate checker `chkScc` – i.e. (by `chkScc_iff`) a partition of
+the explored set into exactly the mutual-reachability classes, listed sinks first. -/
+theorem tarjan_certifies (U nodes : List Nat) (adj : Adj) (hc : Closed U adj) (hs : nodes ⊆ U) :
+    chkScc (reach adj U nodes) adj (tarjan U nodes adj) = true :=
+  chkScc_iff_cert.2 (tarjan_cert hc hs)
+
+/-- the same as a statement of the property's first clause -/
+theorem tarjan_correct (U nodes : List Nat) (adj : Adj) (hc : Closed U adj) (hs : nodes ⊆ U) :
+    IsSccDecomp (reach adj U nodes) adj (tarjan U nodes adj) :=
+  scc_cert (tarjan_cert hc hs)
+
+/-- no neighbours outside the node list: the components partition the node list itself -/
+theorem tarjan_correct_closed (U nodes : List Nat) (adj : Adj) (hc : Closed U adj) (hs : nodes ⊆ U)
+    (hcn : Closed nodes adj) : IsSccDecomp nodes adj (tarjan U nodes adj) := by
+  refine (tarjan_correct U nodes adj hc hs).congr_mem ?_
+  intro x
+  rw [mem_reach_iff hc hs]
+  exact ⟨fun ⟨s0, hs0, hr⟩ => hr.mem_closed hcn hs0, fun h => ⟨x, h, Reach.refl _⟩⟩
+
+/-- **condense, for every input without outside neighbours**: the mirror of `condense` returns the
+condensation (hence, by `condense_spec`, an acyclic graph) -/
+theorem condense_correct (U nodes : List Nat) (adj : Adj) (hc : Closed U adj) (hs : nodes ⊆ U)
+    (hcn : Closed nodes adj) :
+    IsCondensation nodes adj (condense U nodes adj).1 (condense U nodes adj).2 :=
+  condEdges_spec (fun _ => Iff.rfl) (tarjan_correct_closed U nodes adj hc hs hcn)
+
+-- non-vacuity: the example graph (a 3-cycle feeding a self loop) and the graph with an outside vertex
 example : tarjan [0, 1, 2, 3] [0, 1, 2, 3] exAdj = [[3], [2, 1, 0]] := by decide
+example : Closed [0, 1, 2, 3] exAdj := closedB_iff.1 (by decide)
+example : IsSccDecomp [0, 1, 2, 3] exAdj (tarjan [0, 1, 2, 3] [0, 1, 2, 3] exAdj) :=
+  tarjan_correct_closed _ _ _ (closedB_iff.1 (by decide)) (fun _ h => h) (closedB_iff.1 (by decide))
+example : tarjan [0, 1, 2] [0, 1] exOpen = [[1, 2, 0]] := by decide
+example : chkScc (reach exOpen [0, 1, 2] [0, 1]) exOpen (tarjan [0, 1, 2] [0, 1] exOpen) = true :=
+  tarjan_certifies _ _ _ (closedB_iff.1 (by decide)) (by decide)
 
 end Solvor.Graph
